@@ -42,6 +42,24 @@ CHECKS = {
         note="Runs in the val/rel builds where sw-composite returns the offending value instead of asserting; the known-finding signature requires mode Color and an invalid formula-of-record output for that exact (source, destination) pair.",
         ref="DESIGN.md section 3, C18",
     ),
+    "C04": dict(
+        technique="reference-model monitor: independently constructed stroke region (convex primitives in f64, mapped by the transform) evaluated on every pixel of generated strokes",
+        text="Generated strokes (polylines and curves, open/closed, directed turning angles incl. 0/90/180 degrees, widths 0.3..40, 3 caps x 3 joins, miter limits on both sides of the switch-over, translation/rotation/scale/shear/mirror transforms, both AA modes) rendered white on transparent; pixels deep inside the region must be fully painted, pixels deep outside untouched (margin 0.5 px straight, 1 px otherwise); non-positive and NaN widths must paint nothing. Held on the strokes run.",
+        note="Containment is conservative (pixel disc inside one primitive / clear of all primitives); pixels near the boundary, miter joins within 3% of their switch-over and near-cusp vertices are not asserted (counted). For curved paths the polyline is Path::flatten() at the stroker's tolerance.",
+        ref="DESIGN.md section 3, C04",
+    ),
+    "C08": dict(
+        technique="reference-model monitor: f64 path interpreter, winding number and distance to the finely sampled outline at every pixel centre of generated curved fills and clip paths",
+        text="Generated paths mixing move/line/quad/cubic/arc/close (looping, cusped, coincident control points, commands after close, missing MoveTo, control points out to +-3500) under invertible transforms, both rules and AA modes, as fills and as clip paths; every pixel more than 1 px from the exact outline must be 255 inside / 0 outside. Held on the paths run.",
+        note="Curves sampled at 256 steps in f64; arcs are taken through the control points PathBuilder::arc emitted (C20 owns their geometry).",
+        ref="DESIGN.md section 3, C08",
+    ),
+    "C09": dict(
+        technique="reference-model monitor: independent f64 arc-length dasher feeding the C04 region oracle, plus a polyline-level check of the private dash_path through the verif_dash_path hook",
+        text="Generated dashed strokes (open/closed subpaths, arrays of 1..6 positive entries incl. entries longer than the path and odd lengths, offsets of both signs up to +-2e4, all caps/joins) are compared pixel by pixel with the region of the independently dashed pieces (0.75 px margin); dash_path's output must conserve the on-length, stay on the input path and have the expected number of connected pieces; non-positive totals must paint nothing. Held on the cases run.",
+        note="Cases with a dash boundary within 0.02 px of a vertex are skipped unless caps and joins are Round (cap orientation would flip on f32 rounding). Larger offsets are left to C07 (f32 period rounding moves the phase).",
+        ref="DESIGN.md section 3, C09",
+    ),
     "C07": dict(
         technique="no-panic/no-abort/progress monitor over grammar-based boundary-value fuzzing in worker subprocesses (chk build: overflow checks and debug assertions on in every crate), heartbeat supervisor, iteration-bound hooks on the dash loops; AddressSanitizer build in the thorough tier",
         text="Generated call sequences over the whole public API with boundary-biased values inside the stated domain run in worker subprocesses under catch_unwind; a panic, a dead worker (abort/OOM), an iteration-bound overrun or a case that finishes in neither of two isolated re-runs is a violation. Held on the sequences run; two known findings in the dependency sw-composite (non-separable blend modes) are reported as KNOWN-FINDING by exact signature.",
